@@ -12,6 +12,7 @@
    error at the same code; what unpack does after that point is irrelevant).  The writer is  pack . encode_codes. *)
 From Coq Require Import ZArith List Lia Bool FMapPositive.
 Import ListNotations.
+From LX Require Import Generated.Consts.
 Local Open Scope Z_scope.
 
 Record zparams := { z_maxbits : Z; z_block : bool }.
@@ -127,7 +128,10 @@ Definition uncompress (file : list Z) : option (list Z) :=
     let bits := bits_of_bytes payload in
     match dec_codes p (d_init p) (unpack (2 * length bits + 2) p (w_init p) 0 bits) with
     | None => None
-    | Some s => Some (rev_append (d_out s) [])      (* = rev (d_out s), linear *)
+    | Some s =>
+      let out := rev_append (d_out s) [] in          (* = rev (d_out s), linear *)
+      (* the output ceiling (uncompress.c: the buffer may not grow once it holds LIBXMP_DEPACK_LIMIT bytes) *)
+      if C_LIBXMP_DEPACK_LIMIT <=? Z.of_nat (length out) then None else Some out
     end
   | _ => None
   end.
